@@ -36,6 +36,15 @@
 #include "dbformat.h"
 #include "version_edit.h"
 
+/* Page faults are very expensive on the verification host and ASan's default 256 MiB
+ * quarantine plus periodic release-to-OS keeps touching fresh pages; a small quarantine
+ * still catches an immediate use-after-free.  The environment can override this. */
+const char *__asan_default_options(void);
+const char *
+__asan_default_options(void) {
+  return "quarantine_size_mb=16:allocator_release_to_os_interval_ms=-1";
+}
+
 /* ------------------------------------------------------------------ */
 /* declared value domains                                             */
 /* ------------------------------------------------------------------ */
@@ -245,9 +254,13 @@ parse_ecase(const char *s, ecase_t *c) {
 
 static void
 check_edit(const ecase_t *c, verdict_t *v, int sample) {
+  /* The two export buffers are kept across cases (reset, not freed): a multi-megabyte
+   * buffer grown by repeated realloc costs thousands of page faults per case under ASan
+   * (allocations above 256 KiB are mmap'd and unmapped each time).  Exact-size input
+   * blocks, which make over-reads visible, are the business of the C18 driver. */
+  static ldb_buffer_t enc1, enc2;
   ldb_edit_t e, parsed;
   rm_edit_t want, got, from_src, from_parsed;
-  ldb_buffer_t enc1, enc2;
   uint8_t *ref = NULL;
   size_t refn = 0;
   char why[300];
@@ -256,8 +269,8 @@ check_edit(const ecase_t *c, verdict_t *v, int sample) {
   v->sig = NULL;
   build_edit(c, &e, &want);
   ldb_edit_init(&parsed);
-  ldb_buffer_init(&enc1);
-  ldb_buffer_init(&enc2);
+  ldb_buffer_reset(&enc1);
+  ldb_buffer_reset(&enc2);
   rm_edit_init(&got);
   rm_edit_init(&from_src);
   rm_edit_init(&from_parsed);
@@ -316,8 +329,6 @@ done:
   rm_edit_free(&got);
   rm_edit_free(&from_src);
   rm_edit_free(&from_parsed);
-  ldb_buffer_clear(&enc1);
-  ldb_buffer_clear(&enc2);
   ldb_edit_clear(&parsed);
   ldb_edit_clear(&e);
 }
@@ -775,10 +786,12 @@ enum_edits(void) {
                 if (c.K >= K_BIG && c.F > 3)
                   continue; /* declared exclusion: 16 KiB keys only with <= 3 new files */
                 /* The 2000-item edits cost ~10 ms each under ASan (their cost is the item list):
-                 * thorough keeps masks {0,31} for them; quick keeps mask 31, C=1 and every 4th
-                 * value (0, 16383, 2^21+1, 2^32-1, 2^42-1, 2^56-1, 2^64-1). */
+                 * thorough keeps masks {0,31} for them; quick keeps mask 31, C=1, key shapes
+                 * {8 bytes, 300 bytes} and every 4th value (0, 16383, 2^21+1, 2^32-1, 2^42-1,
+                 * 2^56-1, 2^64-1). */
                 if (c.F > 3 || c.D > 3) {
-                  if (drv.thorough ? !(c.m == 0 || c.m == 31) : (c.m != 31 || c.C != 1 || c.vi % 4 != 0))
+                  if (drv.thorough ? !(c.m == 0 || c.m == 31)
+                                   : (c.m != 31 || c.C != 1 || c.vi % 4 != 0 || !(c.K == K_MIN8 || c.K == K_300)))
                     continue;
                 }
                 case_text(t, sizeof(t), "edit", &c);
@@ -1007,7 +1020,7 @@ main(int argc, char **argv) {
            "16 KiB keys only with F<=3}; varint32: %s; diff: all byte strings of length <= %d + alphabet^<=6 + chains",
            drv.thorough ? "thorough" : "quick", NV, NCS, NK, NV,
            drv.thorough ? "32 masks (masks {0,31} for 2000-item edits)"
-                        : "masks {0,31} (2000-item edits lowered to mask 31, C=1, every 4th value: 10 ms each under ASan)",
+                        : "masks {0,31} (2000-item edits lowered to mask 31, C=1, key shapes {8,300} bytes, every 4th value: tens of ms each under ASan)",
            drv.thorough ? "all 2^32 values" : "all values < 2^21 and +-300 around 2^7,2^14,2^21,2^28,2^31,2^32-1",
            drv.thorough ? 3 : 2);
   snprintf(res, sizeof(res),
